@@ -243,7 +243,7 @@ fn main() {
             let mut acc = engine::Acc::new();
             let mut n = 0;
             for (i, c) in cases.iter().enumerate() {
-                if i % shards != shard || (mini && (i % 37 != 0 || c.text.len() > 120)) {
+                if i % shards != shard || (mini && (i % 19 != 0 || c.text.len() > 120)) {
                     continue;
                 }
                 n += 1;
